@@ -151,6 +151,53 @@ def case_table(run, i):
                  sample={"chromosome": cols["chromosome"][:10], "gene": cols["gene"][:10]} if i % 97 == 0 else None)
 
 
-WORKLOADS = {"table": (_n, case_table)}
-_Q = {"CopyNumArray.by_gene|held": 1500, "reports.do_genemetrics|held": 800, "reports.do_breaks|held": 400, "CopyNumArray.squash_genes|held": 400}
+def _n_cli(tier):
+    return 24 if tier == "quick" else 200
+
+
+def case_cli(run, i):
+    """`cnvkit.py genemetrics` on written files: -t / -m / --drop-low-coverage / -y / -x / -s reach do_genemetrics, with the files' tables,
+    and the table written is the one returned."""
+    import os
+    import shutil
+    from skgenome import tabio
+    from cnvlib import commands as CM
+    from ..monitors import cli_plumb
+    rng = run.rng("cli", i)
+    cols = _table(rng)
+    use = {k: cols[k] for k in ("chromosome", "start", "end", "gene", "log2", "weight", "depth")}
+    d = os.path.join(run.workdir, f"cli16_{run.shard}_{i}")
+    os.makedirs(d, exist_ok=True)
+    pb, ps, po = os.path.join(d, "S.cnr"), os.path.join(d, "S.cns"), os.path.join(d, "genes.tsv")
+    segcols = _segments(rng, cols)
+    with run.monitor_scope():
+        tabio.write(make_cna(use), pb)
+        tabio.write(make_cna(segcols), ps)
+    thr, minp = float(rng.choice([0.0, 0.15, 0.5])), int(rng.integers(1, 5))
+    low, male, female, withseg = bool(i % 2), bool((i // 2) % 2), bool((i // 4) % 2), bool(i % 3)
+    argv = ["genemetrics", pb, "-o", po, "-t", repr(thr), "-m", str(minp), "-x", "female" if female else "male"] + (["--drop-low-coverage"] if low else []) \
+        + (["-y"] if male else []) + (["-s", ps] if withseg else [])
+    run.begin_case("cli", i, cls="cli:genemetrics", argv=argv[2:])
+    r = cli_plumb.check_cli(run, rt, CM, "do_genemetrics", argv,
+                            dict(threshold=thr, min_probes=minp, skip_low=low, is_haploid_x_reference=male, is_sample_female=female, segments=withseg, diploid_parx_genome=None),
+                            "genemetrics", truthy=("segments",))
+    if r is not None:
+        got, res, wit = r
+        if len(got["cnarr"]) != len(cols["start"]) or (withseg and len(got["segments"]) != len(segcols["start"])):
+            run.violate("cli.genemetrics[plumbing]", "genemetrics-cli-passes-wrong-tables", "the tables reaching do_genemetrics are not the files' tables", wit)
+        elif not isinstance(res, Exception):
+            rows = cli_plumb.read_tsv(po) if os.path.exists(po) else None
+            fcols = [c for c in res.columns if c in ("log2", "depth", "weight", "segment_weight")]
+            icols = [c for c in res.columns if c in ("start", "end", "probes", "segment_probes")]
+            msg = "no output file" if rows is None else cli_plumb.file_matches_table(rows, res, int_cols=icols, float_cols=fcols, str_cols=("gene", "chromosome"), opt_int=())
+            if msg:
+                run.violate("cli.genemetrics[plumbing]", "genemetrics-cli-file-differs-from-result", msg, wit)
+            else:
+                cli_plumb.held(run, "genemetrics", "cli-genemetrics")
+    shutil.rmtree(d, ignore_errors=True)
+    run.end_case(fp=rt.fingerprint([use["log2"][:30], i], 12), nontrivial=True)
+
+
+WORKLOADS = {"table": (_n, case_table), "cli": (_n_cli, case_cli)}
+_Q = {"cli.genemetrics[plumbing]|held": 18, "CopyNumArray.by_gene|held": 1500, "reports.do_genemetrics|held": 800, "reports.do_breaks|held": 400, "CopyNumArray.squash_genes|held": 400}
 QUOTAS = {"quick": _Q, "thorough": _Q}
